@@ -35,11 +35,14 @@ CONSTANTS Hosts,      \* subject hosts: integers > 1
           Sessions,   \* {1} or {1, 2}
           Ignored,    \* subject hosts the load-balancing policy puts at distance IGNORED
           MaxEvents,  \* how many environment events a behaviour may contain
-          Env,        \* kinds of environment events explored: subset of {"fail","status","topo","mode","auth","ctl"}
+          Env,        \* kinds of environment events explored: subset of {"fail","status","topo","mode","auth","ctl","drop"},
+                      \* plus configuration flags: "remote"  = the subject hosts >= 3 are in a remote datacenter of a policy whose
+                      \*                                       distance depends on liveness (see Remote below)
+                      \*                          "ctlscan" = the query plan lists the subject hosts before the contact point
           Fixed,      \* deviations repaired: subset of Deviations
           FineUp      \* TRUE: with two sessions Cluster.on_up is split between the two iterations of its submit loop
 
-Deviations == {"D1_late_pool", "D2_discount_pool", "D3_ctl_after_shutdown", "D4_recon_removed", "D5_up_loop"}
+Deviations == {"D1_late_pool", "D2_discount_pool", "D3_ctl_after_shutdown", "D4_recon_removed", "D5_up_loop", "D6_unknown_down"}
 
 Ctl == 1
 AllHosts == Hosts \cup {Ctl}
@@ -70,6 +73,8 @@ ctlPend  == cs.ctlPend    \* a control connection reconnect has connected and re
 leaked   == cs.leaked     \* open connections nothing refers to any more
 emL      == cs.emL        \* notifications emitted by the last action to listeners (sequence of <<kind, h>>)
 emP      == cs.emP        \* ... to the load-balancing policy
+emC      == cs.emC        \* number of connections the last action opened (accepted by a node; closed again or not)
+ctlPlan  == cs.ctlPlan    \* hosts the running ControlConnection._reconnect_internal has still to try (not compared with the code)
 \* history fields (not compared with the code)
 lsnUp      == cs.lsnUp       \* listener on_up notifications for h since it last went from up to down
 lsnAdd     == cs.lsnAdd      \* listener on_add notifications for h since it last went from up to down
@@ -77,6 +82,7 @@ lbpUp      == cs.lbpUp       \* policy on_up notifications for h since its last 
 authFailed == cs.authFailed  \* an attempt to connect to h ended in AuthenticationFailed
 wentDown   == cs.wentDown    \* h went from up to down at least once
 badRecon   == cs.badRecon    \* a reconnector was started for a removed host
+ctlLate    == cs.ctlLate     \* control connection attempts of the running reconnect started although the cluster was shut down
 
 -----------------------------------------------------------------------------
 (* Tasks and scheduler entries: one record shape for all of them. *)
@@ -92,6 +98,7 @@ TRemoveHost(h)    == T("RemoveHost", 0, h, "", FALSE, FALSE, 0)
 TRefreshIf        == T("RefreshIf", 0, 0, "", FALSE, FALSE, 0)   \* _refresh_nodes_if_not_up(None)
 TCtlReconnect     == T("CtlReconnect", 0, 0, "", FALSE, FALSE, 0)
 TCtlSet           == T("CtlSet", 0, 0, "", FALSE, FALSE, 0)      \* second half of _reconnect: _set_new_connection(conn)
+TCtlDial(h)       == T("CtlDial", 0, h, "", FALSE, FALSE, 0)     \* _reconnect_internal: the connection attempt to host h is in flight
 TOnUpCont(h, n, r) == T("OnUpCont", 0, h, "", r, FALSE, n)       \* rest of Cluster.on_up from its second add_or_renew_pool on (FineUp);
                                                                  \* r = called by a reconnector, whose probe connection is still open
 
@@ -113,7 +120,7 @@ ExecShut    == phase >= 3
 
 -----------------------------------------------------------------------------
 (* The code paths below take and return such a record, so that they compose the way the methods call each other. *)
-Cur == [cs EXCEPT !.emL = <<>>, !.emP = <<>>]
+Cur == [cs EXCEPT !.emL = <<>>, !.emP = <<>>, !.emC = 0]
 Commit(x) == cs' = x
 
 Submit(st, t) == IF ExecShut THEN st ELSE [st EXCEPT !.exec = BagAdd(@, t)]     \* executor.submit (raises once shut down; callers log / drop)
@@ -136,9 +143,17 @@ LsnEmit(st, kind, h) ==
       [] kind = "add" -> [s1 EXCEPT !.lsnAdd[h] = @ + 1]
       [] OTHER        -> s1
 
+(* Distance.  Hosts in Ignored are IGNORED whatever happens.  Hosts in Remote are at a distance that depends on what the *)
+(* policy knows: DCAwareRoundRobinPolicy(used_hosts_per_remote_dc > 0) answers REMOTE for a remote host it has in its live *)
+(* set and IGNORED for one it has been told is down (or has not been told about yet).  Every place of the code that asks   *)
+(* profile_manager.distance(host) is evaluated on the state at that point.                                                 *)
+Remote == IF "remote" \in Env THEN {h \in Hosts : h >= 3} ELSE {}
+Ign(st, h) == h \in Ignored \/ (h \in Remote /\ h \notin st.lbpLive)
+
 (* Session.add_or_renew_pool: no future for an ignored host or a session that is shut down *)
-HasFuture(h) == h \notin Ignored /\ ~SessShut
-SessAdd(st, s, h, kind, n) == IF HasFuture(h) THEN Submit(st, TAddPool(s, h, kind, n)) ELSE st
+HasFuture(h) == h \notin Ignored /\ ~SessShut                  \* for a host the policies have just been told is up / added
+HasFutureS(st, h) == ~Ign(st, h) /\ ~SessShut
+SessAdd(st, s, h, kind, n) == IF HasFutureS(st, h) THEN Submit(st, TAddPool(s, h, kind, n)) ELSE st
 
 (* Session.remove_pool: pop, submit pool.shutdown (upd: Session.on_down adds update_created_pools as done-callback) *)
 RemovePool(st, s, h, upd) ==
@@ -150,8 +165,11 @@ RemovePool(st, s, h, upd) ==
 
 (* Session.update_created_pools *)
 UpdPools(st, s) ==
-    Fold(LAMBDA x, h : IF x.known[h] /\ x.pools[s][h] \in {"none", "shut"} /\ h \notin Ignored /\ x.up[h] \in {"T", "N"}
-                       THEN SessAdd(x, s, h, "upd", 0) ELSE x,
+    Fold(LAMBDA x, h : IF ~x.known[h] THEN x
+                       ELSE IF x.pools[s][h] \in {"none", "shut"}
+                       THEN (IF ~Ign(x, h) /\ x.up[h] \in {"T", "N"} THEN SessAdd(x, s, h, "upd", 0) ELSE x)
+                       ELSE IF Ign(x, h) THEN RemovePool(x, s, h, FALSE)      \* distance != pool.host_distance and now IGNORED
+                       ELSE x,
          st, Hosts)
 UpdAllPools(st) == Fold(LAMBDA x, s : UpdPools(x, s), st, Sessions)
 
@@ -167,7 +185,7 @@ Detach(st, h, cancel) ==
 
 (* Cluster._start_reconnector *)
 StartRecon(st, h, add) ==
-    IF h \in Ignored THEN st
+    IF Ign(st, h) THEN st
     ELSE IF "D4_recon_removed" \in Fixed /\ st.removed[h] THEN st    \* repaired: no reconnector for a host that left the metadata
     ELSE LET s1 == Detach(st, h, TRUE) IN                       \* the old handler, if any, is cancelled
          [s1 EXCEPT !.recon[h] = "live",
@@ -207,16 +225,18 @@ OnUpFineE(st, h, rec) ==
 (* Cluster._finalize_add *)
 FinalizeAdd(st, h, setUp) == UpdAllPools(LsnEmit(IF setUp THEN SetUp(st, h) ELSE st, "add", h))
 
-(* Cluster.on_add after the load-balancing policies and the control connection were told *)
-OnAddTail(st, h) ==
-    IF h \in Ignored THEN FinalizeAdd(st, h, FALSE)
+(* Cluster.on_add after the load-balancing policies and the control connection were told; ign = the distance on_add read *)
+(* first of all, before the policies heard of the host                                                                   *)
+OnAddTailD(st, h, ign) ==
+    IF ign THEN FinalizeAdd(st, h, FALSE)
     ELSE LET n  == NewN(st, h, "add")
              s2 == Fold(LAMBDA x, s : SessAdd(x, s, h, "add", n), st, Sessions)
          IN IF HasFuture(h)
             THEN [s2 EXCEPT !.grp = @ @@ (<<h, "add", n>> :> [left |-> Sessions, ok |-> TRUE, open |-> FALSE])]
             ELSE FinalizeAdd(s2, h, TRUE)
+OnAddTail(st, h) == OnAddTailD(st, h, h \in Ignored)
 (* Cluster.on_add(host, refresh_nodes=False), as called for a host found by a node-list refresh *)
-OnAddE(st, h) == IF ClusterShut THEN st ELSE OnAddTail(LbpEmit(st, "add", h), h)
+OnAddE(st, h) == IF ClusterShut THEN st ELSE OnAddTailD(LbpEmit(st, "add", h), h, Ign(st, h))
 
 (* Cluster.remove_host + on_remove, without the node-list refresh ControlConnection.on_remove does *)
 OnRemoveE(st, h) ==
@@ -244,7 +264,7 @@ Refresh(st) ==
       [] st.ctl = "broken" -> (IF ClusterShut THEN st ELSE Submit(st, TOnDown(Ctl, FALSE, FALSE)))
       [] OTHER             -> st
 (* Cluster.on_add(host) as the reconnector calls it: refresh_nodes=True *)
-OnAddRefreshE(st, h) == IF ClusterShut THEN st ELSE OnAddTail(Refresh(LbpEmit(st, "add", h)), h)
+OnAddRefreshE(st, h) == IF ClusterShut THEN st ELSE OnAddTailD(Refresh(LbpEmit(st, "add", h)), h, Ign(st, h))
 
 (* Cluster._cleanup_failed_on_up_handling *)
 Cleanup(st, h) ==
@@ -286,6 +306,8 @@ RunOnUpCont(st, t) ==
               ELSE drop(s1)                                                          \* ... and has been handled
     IN IF t.f1 THEN Detach(s2, h, FALSE) ELSE s2
 
+Opened(st) == [st EXCEPT !.emC = @ + 1]
+
 (* run_add_or_renew_pool *)
 RunAddPool(st, t) ==
     LET s == t.s
@@ -294,20 +316,23 @@ RunAddPool(st, t) ==
         add == t.kind = "add"
     IN CASE m = "ok" ->
                IF SessShut /\ "D1_late_pool" \in Fixed
-               THEN PoolDone(st, t, FALSE)                                   \* repaired: the new pool is shut down at once
-               ELSE PoolDone([st EXCEPT !.pools[s][h] = "open"], t, TRUE)   \* a previous pool is shut down inline
+               THEN PoolDone(Opened(st), t, FALSE)                           \* repaired: the new pool is shut down at once
+               ELSE PoolDone([Opened(st) EXCEPT !.pools[s][h] = "open"], t, TRUE)   \* a previous pool is shut down inline
          [] m = "refuse" -> PoolDone(SubmitOnDown(st, h, add, TRUE), t, FALSE)
-         [] m = "auth"   -> PoolDone(SubmitOnDown([st EXCEPT !.authFailed[h] = TRUE], h, add, FALSE), t, FALSE)
+         [] m = "drop"   -> PoolDone(SubmitOnDown(Opened(st), h, add, TRUE), t, FALSE)       \* accepted, closed during the handshake
+         [] m = "auth"   -> PoolDone(SubmitOnDown([Opened(st) EXCEPT !.authFailed[h] = TRUE], h, add, FALSE), t, FALSE)
 
 (* Cluster.on_down (the executor task) *)
 RunOnDown(st, t) ==
     LET h == t.h
-        connected == h = Ctl \/ (h \notin Ignored /\ \E s \in Sessions : st.pools[s][h] = "open")   \* the control host keeps its pools
+        connected == h = Ctl \/ (~Ign(st, h) /\ \E s \in Sessions : st.pools[s][h] = "open")   \* the control host keeps its pools
     IN
     IF ClusterShut THEN st
     ELSE IF connected                                                                  \* _discount_down_events: the host stays up
          THEN (IF "D2_discount_pool" \in Fixed THEN UpdAllPools(st) ELSE st)          \* repaired: sessions that lost their pool get a new one
-    ELSE LET wasUp == st.up[h] = "T"
+    ELSE LET wasUp == IF "D6_unknown_down" \in Fixed THEN st.up[h] # "F"      \* repaired: only a host already marked down is skipped
+                      ELSE st.up[h] = "T"                                     \* `not was_up`: None (never marked up, e.g. a remote host
+                                                                              \* added while still IGNORED, which has pools) counts as down
              s1 == SetDown(st, h)
          IN IF (~wasUp /\ ~t.f2) \/ st.recon[h] # "none" THEN s1
             ELSE LET s2 == LbpEmit(s1, "down", h)
@@ -330,17 +355,37 @@ RunReconConn(st, t) ==
     LET h == t.h
         again == [t EXCEPT !.k = "Recon"]
     IN CASE mode[h] = "refuse" -> IF ClusterShut THEN st ELSE [st EXCEPT !.sched = BagAdd(@, again)]    \* next attempt (run() starts with the cancelled check)
-         [] mode[h] = "auth"   -> [st EXCEPT !.authFailed[h] = TRUE]            \* gives up; stays the host's handler
+         [] mode[h] = "drop"   -> IF ClusterShut THEN Opened(st) ELSE [Opened(st) EXCEPT !.sched = BagAdd(@, again)]
+         [] mode[h] = "auth"   -> [Opened(st) EXCEPT !.authFailed[h] = TRUE]    \* gives up; stays the host's handler
          [] mode[h] = "ok"     ->
-              IF t.f1 THEN st                                                 \* cancelled while connecting: `if not self._cancelled` - the connection is just closed
-              ELSE IF ~t.f2 /\ Fine(h) /\ OnUpProceeds(st, h) THEN OnUpFineE(st, h, TRUE)
-              ELSE LET s1 == IF t.f2 THEN OnAddRefreshE(st, h) ELSE OnUpE(st, h)
+              IF t.f1 THEN Opened(st)                                         \* cancelled while connecting: `if not self._cancelled` - the connection is just closed
+              ELSE IF ~t.f2 /\ Fine(h) /\ OnUpProceeds(Opened(st), h) THEN OnUpFineE(Opened(st), h, TRUE)
+              ELSE LET s1 == IF t.f2 THEN OnAddRefreshE(Opened(st), h) ELSE OnUpE(Opened(st), h)
                    IN Detach(s1, h, FALSE)                                    \* callback: get_and_set_reconnection_handler(None), no cancel
 
-(* ControlConnection._reconnect, first half: _reconnect_internal connects to host 1, registers, refreshes with the new connection *)
+(* ControlConnection._reconnect -> _reconnect_internal: the hosts of the policy's query plan are tried in turn.  The plan *)
+(* (taken once) is the live hosts: the contact point first, or - flag "ctlscan" - the subject hosts first and the contact    *)
+(* point last.  Only the contact point serves a control connection here: an attempt on a subject host ends with an error    *)
+(* whatever the node's mode (its system.local query fails), with a ConnectionException when the node drops the handshake.   *)
+CtlNext(plan) == IF "ctlscan" \in Env /\ plan \cap Hosts # {} THEN Min(plan \cap Hosts) ELSE Ctl
+CtlDialStart(st, plan) ==                      \* _try_connect(host): connection_factory(...) called, the attempt is in flight
+    LET h == CtlNext(plan) IN
+    [st EXCEPT !.exec = BagAdd(@, TCtlDial(h)), !.ctlPlan = plan \ {h},
+               !.ctlLate = IF ClusterShut THEN @ + 1 ELSE @]
 RunCtlReconnect(st) ==
-    IF ClusterShut THEN st                                            \* _try_connect closes the new connection and raises
-    ELSE Submit(DoRefresh([st EXCEPT !.ctlPend = TRUE]), TCtlSet)
+    CtlDialStart([st EXCEPT !.ctlLate = 0], IF "ctlscan" \in Env THEN st.lbpLive ELSE {Ctl})
+(* the attempt to host h has its result *)
+RunCtlDial(st, t) ==
+    LET h == t.h
+        stop == [st EXCEPT !.ctlPlan = {}]
+    IN IF h = Ctl
+       THEN IF ClusterShut THEN Opened(stop)                           \* _try_connect: `if self._is_shutdown: connection.close(); raise`
+            ELSE Submit(DoRefresh([Opened(stop) EXCEPT !.ctlPend = TRUE]), TCtlSet)    \* registers, refreshes with the new connection
+       ELSE LET s1 == CASE mode[h] = "refuse" -> st                     \* socket error: not a ConnectionException
+                        [] mode[h] = "drop"   -> SubmitOnDown(Opened(st), h, FALSE, FALSE)    \* ConnectionException: signal_connection_failure
+                        [] OTHER              -> Opened(st)             \* connected (or authentication failed), closed again: some other error
+            IN IF ClusterShut THEN [s1 EXCEPT !.ctlPlan = {}]           \* `if self._is_shutdown: raise DriverException` after every failed attempt
+               ELSE CtlDialStart(s1, st.ctlPlan)                        \* next host of the plan (the contact point is always left)
 (* ... second half: _set_new_connection(conn) *)
 RunCtlSet(st) ==
     IF ClusterShut /\ "D3_ctl_after_shutdown" \in Fixed
@@ -360,6 +405,7 @@ RunTask(st, t) ==
       [] t.k = "RefreshIf"    -> Refresh(st)
       [] t.k = "CtlReconnect" -> RunCtlReconnect(st)
       [] t.k = "CtlSet"       -> RunCtlSet(st)
+      [] t.k = "CtlDial"      -> RunCtlDial(st, t)
 
 -----------------------------------------------------------------------------
 A(name, t, s, h, x) == [name |-> name, t |-> t, s |-> s, h |-> h, x |-> x]
@@ -373,7 +419,7 @@ InitExec == LET S == {TAddPool(Max(Sessions), h, "init", 0) : h \in Known0 \ Ign
 Init ==
     /\ cs = [known |-> [h \in Hosts |-> h \in Known0],
              removed |-> [h \in Hosts |-> FALSE],
-             up |-> [h \in Hosts |-> IF h \in Known0 \ Ignored THEN "T" ELSE "N"],
+             up |-> [h \in Hosts |-> IF h \in Known0 \ (Ignored \cup Remote) THEN "T" ELSE "N"],   \* on_add of a host still IGNORED does not set_up
              handling |-> [h \in Hosts |-> FALSE],
              recon |-> [h \in Hosts |-> "none"],
              pools |-> InitPools,
@@ -382,7 +428,7 @@ Init ==
              sched |-> EmptyBag,
              lbpLive |-> Known0 \cup {Ctl},
              ctl |-> "open", ctlPend |-> FALSE, leaked |-> 0,
-             emL |-> <<>>, emP |-> <<>>,
+             emL |-> <<>>, emP |-> <<>>, emC |-> 0, ctlPlan |-> {}, ctlLate |-> 0,
              lsnUp |-> [h \in Hosts |-> 0], lsnAdd |-> [h \in Hosts |-> 0], lbpUp |-> [h \in Hosts |-> 0],
              authFailed |-> [h \in Hosts |-> FALSE], wentDown |-> [h \in Hosts |-> FALSE], badRecon |-> FALSE]
     /\ mode = [h \in Hosts |-> "ok"]
@@ -447,6 +493,7 @@ SetMode(h, m) ==
     /\ Event
     /\ m # mode[h]
     /\ m \in {"ok"} \cup (IF "mode" \in Env THEN {"refuse"} ELSE {}) \cup (IF "auth" \in Env THEN {"auth"} ELSE {})
+              \cup (IF "drop" \in Env THEN {"drop"} ELSE {})
     /\ mode' = [mode EXCEPT ![h] = m]
     /\ Commit(Cur)
     /\ act' = A("SetMode", NoT, 0, h, m)
@@ -500,7 +547,7 @@ Next ==
     \/ \E s \in Sessions, h \in Hosts : ConnFailure(s, h)
     \/ \E h \in Hosts, x \in {"UP", "DOWN"} : StatusEvent(h, x)
     \/ \E h \in Hosts, x \in {"NEW_NODE", "REMOVED_NODE"} : TopologyEvent(h, x)
-    \/ \E h \in Hosts, m \in {"ok", "refuse", "auth"} : SetMode(h, m)
+    \/ \E h \in Hosts, m \in {"ok", "refuse", "auth", "drop"} : SetMode(h, m)
     \/ CtlFail
     \/ ShutdownA \/ ShutdownS \/ ShutdownE
     \/ \E s \in Sessions : Request(s)
@@ -524,7 +571,7 @@ LiveRecons(h) == BagCount(sched, LAMBDA t : IsRecon(t) /\ t.h = h /\ ~t.f1)
                  + BagCount(exec, LAMBDA t : IsRecon(t) /\ t.h = h /\ ~t.f1)
 (* executor drained and nothing due in the scheduler (reconnection attempts are the only delayed entries) *)
 Quiescent == phase = 0 /\ exec = EmptyBag /\ \A e \in DOMAIN sched : e.k = "Recon"
-Subject(h) == h \in Hosts \ Ignored /\ known[h] /\ ~authFailed[h]
+Subject(h) == h \in Hosts /\ ~Ign(cs, h) /\ known[h] /\ ~authFailed[h]
 
 OneReconnector ==
     Quiescent => \A h \in Hosts : (Subject(h) /\ up[h] = "F") => (recon[h] = "live" /\ LiveRecons(h) = 1)
@@ -540,6 +587,8 @@ UpHasPools ==
     Quiescent => \A h \in Hosts : (Subject(h) /\ up[h] = "T") => \A s \in Sessions : pools[s][h] = "open"
 
 (* ---- C45 ---- *)
+(* a control connection reconnect that finds the cluster shut down gives up: it does not go on to the next host of the plan *)
+CtlStopsDialling == ctlLate <= 1
 AllClosed == Returned => NOpen = 0
 Refused == \A s \in Sessions : req[s] # "pending"
 
@@ -548,5 +597,6 @@ Witness_Reconnected == ~(\E h \in Hosts : wentDown[h] /\ up[h] = "T" /\ lsnUp[h]
 Witness_ReconRetry == ~(act.name = "Exec" /\ act.t.k = "ReconConn" /\ ~act.t.f1 /\ LiveRecons(act.t.h) = 1 /\ mode[act.t.h] = "refuse")
 Witness_ShutdownWithWork == ~(phase = 3 /\ exec # EmptyBag)
 Witness_CancelledInFlight == ~(act.name = "Exec" /\ act.t.k = "ReconConn" /\ act.t.f1 /\ mode[act.t.h] = "ok")
+Witness_CtlDialFailsAfterShutdown == ~(act.name = "Exec" /\ act.t.k = "CtlDial" /\ act.t.h # Ctl /\ phase >= 1 /\ mode[act.t.h] = "drop")
 Witness_ShutdownMidUp == ~(phase = 1 /\ \E h \in Hosts : handling[h])
 =============================================================================
